@@ -279,6 +279,36 @@ def mime_grads(case):
         for kk in tot:
           tot[kk] = tot[kk] + np.asarray(gsum[kk], np.float64)
         ntot += float(num)
+      if (bs, k) == geoms[0] and not str(case.get('backend', '')).startswith('pmap'):
+        # streamed / hand-made batch lists that contain FULLY padded batches (no real row) - first, in the middle, last, or
+        # nothing else: the client's sum and count are those of its real examples
+        for where in ('lead', 'mid', 'last', 'only_pads', 'two_leading'):
+          cl2 = []
+          for i, ex in enumerate(exs):
+            real = _padded(ex, bs, k)
+            pad = {kk: np.zeros((bs,) + v.shape[1:], v.dtype) for kk, v in ex.items()}
+            pad[MASK] = np.zeros(bs, bool)
+            if where == 'lead':
+              bl = [pad] + real
+            elif where == 'two_leading':
+              bl = [pad, dict(pad)] + real
+            elif where == 'mid':
+              bl = real[:1] + [pad] + real[1:]
+            elif where == 'last':
+              bl = real + [pad]
+            else:
+              bl = [pad, dict(pad)] if len(ex['y']) == 0 else [pad] + real + [pad]
+            cl2.append((b'c%d' % i, bl, jax.random.PRNGKey(i)))
+          out2 = dict(fec(jparams(p), cl2))
+          for i, ex in enumerate(exs):
+            gsum, num = out2[b'c%d' % i]
+            n = len(ex['y'])
+            require(float(num) == n, 'client %d: num_sum with fully padded batches (%s)' % (i, where), n, float(num), case=dict(nc, where=where))
+            want = ref_grad(loss, reg, p, ex)
+            cmp_tree({kk: np.asarray(v) for kk, v in gsum.items()}, {kk: v * n for kk, v in want.items()},
+                     'client %d: grads_sum over a batch list with fully padded batches (%s) != num * full-batch gradient' % (i, where),
+                     dict(nc, where=where), tol=5e-5)
+          evals += 1
       allex = {kk: np.concatenate([e[kk] for e in exs]) for kk in ('x', 'y')}
       if ntot > 0:
         cmp_tree({kk: v / ntot for kk, v in tot.items()}, ref_grad(loss, reg, p, allex),
@@ -468,6 +498,42 @@ def mime_server_grad(case):
   return {'evals': evals, 'nontrivial': True, 'outcome': [loss, reg, sizes], 'keys': [[loss, reg, sizes, g] for g in geoms]}
 
 
+def nonfinite_loss(case):
+  """A per-example loss that is +inf / NaN on one REAL example (a confidently wrong prediction, log 0): the average over padded
+  batches is what the unpadded batches give (inf / NaN - not a large finite number, not 0), for every geometry."""
+  import fedjax
+  import jax
+  import jax.numpy as jnp
+  n, bad, kind = case['N'], case['bad'], case['kind']
+  val = {'inf': np.inf, 'nan': np.nan}[kind]
+  ex = data(n, case.get('seed', 0))
+  ex['flag'] = np.zeros(n, np.float32)
+  if n:
+    ex['flag'][bad % n] = 1.0
+  key = ('nonfinite', kind)
+  if key not in _CACHE:
+    def per_ex(params, b, rng):
+      r = b['x'] @ params['w'] + params['b'] - b['y']
+      return jnp.where(b['flag'] > 0.5, jnp.asarray(val, jnp.float32), r * r)
+    _CACHE[key] = (per_ex, fedjax.AverageLossEvaluator(per_ex))
+  per_ex, ale = _CACHE[key]
+  rng = jax.random.PRNGKey(1)
+  plain = [{kk: v[i:i + 2] for kk, v in ex.items()} for i in range(0, n, 2)]
+  want = float(fedjax.evaluate_average_loss(jparams(W0), plain, rng, per_ex)) if n else 0.0
+  require((np.isposinf(want) if kind == 'inf' else np.isnan(want)) or n == 0, 'harness: the unpadded average is not %s' % kind, kind, want, case=case)
+  evals = 0
+  for bs, k in _geoms(case):
+    nc = dict(case, geom=[bs, k])
+    batches = _padded(ex, bs, k)
+    got = float(fedjax.evaluate_average_loss(jparams(W0), batches, rng, per_ex))
+    got_e = float(dict(ale.evaluate_global_params(jparams(W0), [(b'a', batches, rng)]))[b'a'])
+    for g, what in ((got, 'evaluate_average_loss'), (got_e, 'AverageLossEvaluator')):
+      same = (np.isnan(g) and np.isnan(want)) or g == want
+      require(same, '%s over padded batches differs from the unpadded average when a real example has a %s loss' % (what, kind), want, g, case=nc)
+    evals += 1
+  return {'evals': evals, 'nontrivial': True, 'outcome': [n, bad, kind], 'keys': [[n, bad, kind, list(g)] for g in _geoms(case)]}
+
+
 def kmeans_centers(case):
   """ModelKMeansInitializer / kmeans_init: every further centre is the trained parameters of a client whose best average
   loss (over the centres so far, from padded batches, regulariser counted once per evaluation) is maximal - for every
@@ -552,7 +618,7 @@ def kmeans_centers(case):
   return {'evals': evals, 'nontrivial': True, 'outcome': sorted(outs), 'keys': keys, 'stats': {'choices_decided_by_the_regulariser': reg_decides}}
 
 
-SUBS = {'kmeans_centers': kmeans_centers, 'reg_sequence': reg_sequence, 'mime_server_grad': mime_server_grad, 'grad_masks': grad_masks, 'avg_loss': avg_loss, 'mime_grads': mime_grads, 'agnostic_domain': agnostic_domain,
+SUBS = {'nonfinite_loss': nonfinite_loss, 'kmeans_centers': kmeans_centers, 'reg_sequence': reg_sequence, 'mime_server_grad': mime_server_grad, 'grad_masks': grad_masks, 'avg_loss': avg_loss, 'mime_grads': mime_grads, 'agnostic_domain': agnostic_domain,
         'hyp_losses': hyp_losses}
 TIMEOUTS = {k: 1200 for k in SUBS}
 
@@ -592,6 +658,7 @@ def plan(ctx):
                                for t in tuples for nd in (1, 2, 3, 5)] +
            [{'loss': 'sq', 'sizes': t, 'num_domains': 2, 'seed': s, 'reg': r} for r in ('l2', 'l2c') for t in tuples] +
            [{'loss': 'sq', 'sizes': t, 'num_domains': 2, 'seed': s, 'backend': be} for be in bes for t in ptuples], chunk=2)
+  ctx.pmap('nonfinite_loss', [{'N': n, 'bad': b, 'kind': kd, 'seed': s} for kd in ('inf', 'nan') for n in (1, 3, 5) for b in (0, n - 1)], chunk=3)
   ctx.pmap('kmeans_centers', [{'lam': lam, 'clusters': k, 'sizes': t, 'epochs': ep, 'rngs': list(range(8 if th else 5)), 'seed': s, 'route': rt,
                               'geoms': [list(g) for g in (GEOMS if th else [(1, 1), (2, 2), (4, 3), (6, 1)])]}
                              for lam, t, ep in ((None, [3, 5, 2, 4, 1], 1), (1.0, [4, 4, 4, 4, 4, 4], 6), (0.5, [3, 5, 2, 4, 1], 6), (1.0, [2, 2, 6, 1], 3))
